@@ -86,6 +86,8 @@ class GCPBatchExecutor(Executor):
         self.is_running = False
         self.interval = config.getfloat("job_monitor_interval", fallback=5.0)
         self._thread: Optional[threading.Thread] = None
+        # Guards the decision of whether a monitor thread is watching for new jobs.
+        self._lock = threading.RLock()
         self.arrayer = JobArrayer(
             self._submit_jobs,
             self._on_error,
@@ -495,19 +497,21 @@ class GCPBatchExecutor(Executor):
         """
         Start monitoring thread.
         """
-        if not self._thread or not self._thread.is_alive():
-            self.is_running = True
-            self._thread = threading.Thread(target=self._monitor, daemon=False)
-            self._thread.start()
+        with self._lock:
+            if not self.is_running or not self._thread or not self._thread.is_alive():
+                self.is_running = True
+                self._thread = threading.Thread(target=self._monitor, daemon=False)
+                self._thread.start()
 
     def stop(self) -> None:
         """
         Stop Executor and monitoring thread.
         """
-        self.is_running = False
+        with self._lock:
+            self.is_running = False
 
-        self._docker_executor.stop()
-        self.arrayer.stop()
+            self._docker_executor.stop()
+            self.arrayer.stop()
 
         # Stop monitor thread.
         if (
@@ -526,39 +530,54 @@ class GCPBatchExecutor(Executor):
         # Need new client for thread safety
         gcp_batch_client = gcp_utils.get_gcp_batch_client()
 
-        try:
-            while self.is_running and (self.pending_batch_tasks or self.arrayer.num_pending):
-                if self._scheduler.logger.level >= logging.DEBUG:
-                    self.log(
-                        f"Preparing {self.arrayer.num_pending} job(s) for Job Arrays.",
-                        level=logging.DEBUG,
-                    )
-                    self.log(
-                        f"Waiting on {len(self.pending_batch_tasks)} Batch tasks(s):\n\t"
-                        + "\n\t".join(sorted(self.pending_batch_tasks.keys())),
-                        level=logging.DEBUG,
-                    )
+        while True:
+            failed = False
+            try:
+                while self.is_running and (self.pending_batch_tasks or self.arrayer.num_pending):
+                    if self._scheduler.logger.level >= logging.DEBUG:
+                        self.log(
+                            f"Preparing {self.arrayer.num_pending} job(s) for Job Arrays.",
+                            level=logging.DEBUG,
+                        )
+                        self.log(
+                            f"Waiting on {len(self.pending_batch_tasks)} Batch tasks(s):\n\t"
+                            + "\n\t".join(sorted(self.pending_batch_tasks.keys())),
+                            level=logging.DEBUG,
+                        )
 
-                # Copy pending_batch_tasks.keys() since it can change due to new submissions.
-                task_names = list(self.pending_batch_tasks.keys())
-                for name in task_names:
-                    try:
-                        task = gcp_utils.get_task(client=gcp_batch_client, task_name=name)  # ty: ignore[invalid-argument-type]
-                        self._process_task_status(task)
-                    except NotFound:
-                        # Batch Job has not instantiated tasks yet so ignore this NotFound error
-                        continue
+                    # Copy pending_batch_tasks.keys() since it can change due to new
+                    # submissions.
+                    task_names = list(self.pending_batch_tasks.keys())
+                    for name in task_names:
+                        try:
+                            task = gcp_utils.get_task(client=gcp_batch_client, task_name=name)  # ty: ignore[invalid-argument-type]
+                            self._process_task_status(task)
+                        except NotFound:
+                            # Batch Job has not instantiated tasks yet so ignore this NotFound
+                            # error
+                            continue
 
-                time.sleep(self.interval)
+                    time.sleep(self.interval)
 
-        except Exception as error:
-            # Since we run this is method at the top-level of a thread, we
-            # need to catch all exceptions so we can properly report them to
-            # the scheduler.
-            self._scheduler.reject_job(None, error)
+            except Exception as error:
+                # Since we run this is method at the top-level of a thread, we
+                # need to catch all exceptions so we can properly report them to
+                # the scheduler.
+                failed = True
+                self._scheduler.reject_job(None, error)
 
-        self.log("Shutting down executor...", level=logging.DEBUG)
-        self.stop()
+            self.log("Shutting down executor...", level=logging.DEBUG)
+            with self._lock:
+                # A job submitted since the loop above found nothing left to monitor did not
+                # start a new monitor thread, because this thread was still alive. Keep
+                # monitoring for it instead of exiting.
+                idle = self.is_running and not failed
+                self.stop()
+                if idle and (self.pending_batch_tasks or self.arrayer.num_pending):
+                    self.is_running = True
+                    self.arrayer.start()
+                    continue
+            break
 
     def _process_task_status(self, task: Task) -> None:
         assert self._scheduler
